@@ -232,7 +232,9 @@ func (m *CPU) Run(app risc.Application) (int, error) {
 				continue
 			}
 			empty = false
-			eu.Cycle(euReq{cycle, app})
+			if resp := eu.Cycle(euReq{cycle, app}); resp.err != nil {
+				return 0, resp.err
+			}
 		}
 		// The units being drained need room on the write bus
 		m.writeBus.Connect(cycle)
